@@ -31,7 +31,10 @@ def _verify_one(task):
     c = REG.contracts[key]
     tier = os.environ.get('VERIF_TIER', 'quick')
     # VERIF_QUERY_TIMEOUT_MS: self-test knob (starve z3 to exercise the second-opinion stage)
-    tmo = int(os.environ.get('VERIF_QUERY_TIMEOUT_MS') or (20000 if tier == 'quick' else 60000))
+    # the same query budget in both tiers: a proof does not get more thorough with a longer time-out, and
+    # queries that z3 leaves open for 20 s were observed to stay open for 60 s, only three times as slowly
+    # (the thorough tier adds the thorough-only contracts, the strict variants and deeper bounded companions)
+    tmo = int(os.environ.get('VERIF_QUERY_TIMEOUT_MS') or 20000)
     try:
         r = verify_contract(REG, c, timeout_ms=tmo, strict=strict)
     except Exception as ex:  # engine crash
@@ -262,6 +265,7 @@ def run_property(pid, tier='quick', seed=0, jobs=16, verbose=False):
     # longest first
     tasks = [(k, False) for k in keys] + [
         (k, True) for k in keys if REG.contracts[k].domain
+        and REG.contracts[k].options.get('strict_tier', 'quick') != 'never'
         and (tier == 'thorough' or REG.contracts[k].options.get('strict_tier', 'quick') == 'quick')]
     tasks.sort(key=lambda t: -REG.contracts[t[0]].options.get('weight', 1))
     jobs = min(jobs, len(tasks))
